@@ -105,6 +105,25 @@ def run(R):
         for r in by["avx2"][:2] + by["avx2"][-1:]:
             R.sample({"cls": r["cls"], "alg": r.get("alg", r.get("variant")), "events": [(e["op"], len(e.get("data", [])), e.get("off"), vlib.hexs(e["out"]["v"])[:32]) for e in r["ev"]][:5],
                       "builds": TAGS})
+    # counters preset next to every word / half-word boundary (C20's scripts: BLAKE2b/s byte counters incl. t0 >= 2^31, cipher block counters,
+    # Merkle-Damgard length counters) through every vector build: a vectorised counter load with the wrong lane width or a sign extension only
+    # shows beyond 2 GiB of input
+    from props import c20
+    ch, cs = c20.counter_scripts(R, thorough)
+    extra31 = []
+    for alg, w in (("blake2s", 32), ("blake2b", 64)):
+        b = hc.BLAKE[alg][0]
+        for t0 in ((1 << (w - 1)) - b, (1 << (w - 1)) - 1, 1 << (w - 1), (1 << w) - 2 * b):
+            data = vlib.prng_bytes(R.seed, "c16ctr/%s" % alg, 3 * b + 9)
+            extra31.append({"id": R.next_id(), "cls": "hash", "alg": alg, "api": "dyn", "outlen": hc.BLAKE[alg][1], "key": [],
+                            "ev": [{"op": "new"}, {"op": "set_counter", "x": 1, "t0": c20.limbs(t0), "t1": c20.limbs(5)}, {"op": "update_mut", "x": 1, "data": data},
+                                   {"op": "finalize", "x": 1}]})
+            R.count((alg, "counter-half-word", t0.bit_length()))
+    for (tm, hh, cost) in (("TraceHash", ch + extra31, hc.cost_hash), ("TraceStream", cs, sc.cost_stream)):
+        byk = {t: R.drive_on(hh, t, "K.%s.%s" % (tm, t)) for t in TAGS}
+        for t in TAGS:
+            R.judge(tm, byk[t], t, describe=describe, label="K.%s.%s" % (tm, t), cost=cost, timeout=2000)
+        R.equiv(byk, "K.equiv." + tm, describe=describe)
     # the engine queries of C03 (native and portable engine, every key / nonce length, counter boundary) on every build
     mods = ["c03", "c01", "c05", "c06", "c08", "c10"] + (["c02", "c04", "c07", "c09", "c11"] if thorough else [])
     for m in mods:
